@@ -34,6 +34,106 @@ ALLOWED_PLAIN_BINDERS = {
 USER_CALLABLE_TYPES = ("alloc::borrow::Cow<'_, syn::expr::Expr>", "darling_core::util::callable::Callable", "alloc::borrow::Cow<'_, darling_core::util::callable::Callable>")
 
 
+SAFE_INTERP = re.compile(r"^(darling_core::options::shape::DataShape|alloc::string::String|str|syn::ty::Type|proc_macro2::Literal|bool|usize|darling_core::util::shape::Shape)$")
+
+
+def _strip_wrappers(ty):
+    ty = ty or ""
+    for _ in range(4):
+        m = re.match(r"^(?:core::option::Option|quote::__private::RepInterp|alloc::borrow::Cow<'_,) ?<?(.*?)>$", ty)
+        m2 = re.match(r"^(?:core::option::Option|quote::__private::RepInterp)<(.*)>$", ty)
+        if m2:
+            ty = m2.group(1)
+            continue
+        m3 = re.match(r"^alloc::borrow::Cow<'_, (.*)>$", ty)
+        if m3:
+            ty = m3.group(1)
+            continue
+        break
+    return ty
+
+
+def _path_position(toks, j):
+    """the ident interpolated at toks[j] is a path segment (`#a :: b`, `x :: #a`) or a member name
+    (`. #a`): it lives in the type namespace / names a field, never a local variable"""
+    prev = toks[j - 1] if j > 0 else None
+    nxt = toks[j + 1] if j + 1 < len(toks) else None
+    if nxt is not None and nxt.kind == "punct" and nxt.text == "::":
+        return True
+    if prev is not None and prev.kind == "punct" and prev.text in ("::", "."):
+        return True
+    return False
+
+
+def carries_user_tokens(T, toks, j, depth=0):
+    """may the tokens printed for the interpolation toks[j] contain text the user wrote that can see
+    or be seen by a local binding (an expression, a path to a function, an identifier used as a
+    value)?  Types are not counted: a type cannot refer to a local binding."""
+    tk = toks[j]
+    if tk.kind == "append":
+        # `tokens.append_all(quote!(..))`: the appended stream is one of this generator's own streams
+        return not T.stream_alts(tk.inner)
+    ty = _strip_wrappers(tk.ty)
+    if SAFE_INTERP.match(ty):
+        return False
+    if ty == "proc_macro2::Ident" and _path_position(toks, j):
+        return False
+    if depth < 4:
+        ct = T.callee_templates(tk)
+        if ct is not None and ct is not T:
+            for s2, toks2 in ct.by_stream.items():
+                for k, t2 in enumerate(toks2):
+                    if t2.kind in ("interp", "append") and not (t2.kind == "interp" and ct.stream_alts(t2.src)) and carries_user_tokens(ct, toks2, k, depth + 1):
+                        return True
+            return False
+    return True
+
+
+def user_tokens_in_scope(T, s, i, kind="let"):
+    """user-carrying interpolations in the scope of the binder at position i of stream s.
+    kind: 'let' | 'closure' | 'for' (rest of the own group), 'pattern' (rest of the own group and of
+    the enclosing ones up to the arm's brace), 'param' (the fn body after the parameter list)"""
+    out = []
+
+    def scan(stream, start, seen, stop_after_brace=False):
+        toks = T.by_stream.get(stream, [])
+        for j in range(start, len(toks)):
+            tk = toks[j]
+            if tk.kind == "interp" and T.stream_alts(tk.src):
+                for a in T.stream_alts(tk.src):
+                    if a not in seen:
+                        scan(a, 0, seen | {a})
+            elif tk.kind in ("interp", "append") and carries_user_tokens(T, toks, j):
+                out.append("%s %s" % (tk.ty, (tk.expr or "")[:60]))
+            if tk.kind in ("group", "append") and tk.inner in T.by_stream and tk.inner not in seen:
+                scan(tk.inner, 0, seen | {tk.inner})
+                if stop_after_brace and tk.kind == "group" and tk.text == "Brace":
+                    return
+
+    def parent_of(cur):
+        for ps, toks in T.by_stream.items():
+            for j, tk in enumerate(toks):
+                if tk.kind in ("group", "append") and tk.inner == cur and ps != cur:
+                    return ps, j, tk
+        return None
+
+    if kind == "param":
+        p = parent_of(s)
+        if p is not None:
+            scan(p[0], p[1] + 1, {p[0], s}, stop_after_brace=True)
+        return out
+    scan(s, i + 1, {s})
+    if kind == "pattern":
+        cur = s
+        for _ in range(3):
+            p = parent_of(cur)
+            if p is None or (p[2].kind == "group" and p[2].text == "Brace"):
+                break
+            scan(p[0], p[1] + 1, {p[0], cur})
+            cur = p[0]
+    return out
+
+
 def facade(ctx):
     cs = [c for c in ctx.crates("darling") if not c["test"] and c.get("public")]
     if not cs:
@@ -126,6 +226,7 @@ def run(ctx):
             toks = T.by_stream[s]
             for i, tk in enumerate(toks):
                 name = None
+                bkind = "let"
                 if tk.kind == "ident" and tk.text == "let":
                     j = i + 1
                     if j < len(toks) and toks[j].kind == "ident" and toks[j].text == "mut":
@@ -139,16 +240,24 @@ def run(ctx):
                         name = None  # the receiver's own field ident (a slot named after the field) – see C20.H.slot-names
                 elif tk.kind == "ident" and tk.text in ("ref",) and i + 1 < len(toks) and toks[i + 1].kind == "ident":
                     name = toks[i + 1].text
+                    bkind = "pattern"
                 elif tk.kind == "punct" and tk.text == "|" and i + 2 < len(toks) and toks[i + 1].kind == "ident" and toks[i + 2].kind == "punct" and toks[i + 2].text == "|":
                     name = toks[i + 1].text
+                    bkind = "closure"
                 elif tk.kind == "ident" and tk.text == "for" and i + 1 < len(toks) and toks[i + 1].kind == "ident":
                     name = toks[i + 1].text
                 if name is None or name in ("mut", "ref", "_"):
                     continue
                 binders_seen += 1
-                ok = name.startswith("__") or name in ALLOWED_PLAIN_BINDERS
-                ctx.ob("C20.H.hygienic-binder", b.owner_fn or b.key, "binder `%s`" % name, ok,
-                       "a generated binder that does not start with `__` can shadow or capture the receiver's field, variant or generic names" if not ok else (ALLOWED_PLAIN_BINDERS.get(name, "double-underscore")))
+                ok = name.startswith("__")
+                why = "double-underscore"
+                if not ok:
+                    # a plain name is harmless only where no user-written token can stand in its scope
+                    users = user_tokens_in_scope(T, s, i, bkind)
+                    ok = not users
+                    why = "no user token is interpolated in the scope of this binder" if ok else \
+                        "a generated binder that does not start with `__` can shadow or capture the receiver's field, variant or generic names: user tokens in its scope: %s" % users[:4]
+                ctx.ob("C20.H.hygienic-binder", b.owner_fn or b.key, "binder `%s`" % name, ok, why)
     ctx.floor("C20.H.binders", "binders introduced by templates", binders_seen, 25)
     # match-arm binders of generated matches: `__other`, `__type_fallback`, `__value`, `__val`, `__err`, `__data`, `__items`, `__nested`
     # fn parameters of generated fns
@@ -161,8 +270,13 @@ def run(ctx):
                     inner = T.by_stream.get(toks[i + 2].inner, [])
                     for j, p in enumerate(inner):
                         if p.kind == "ident" and j + 1 < len(inner) and inner[j + 1].kind == "punct" and inner[j + 1].text == ":":
-                            ok = p.text.startswith("__") or p.text in ALLOWED_PLAIN_BINDERS
-                            ctx.ob("C20.H.hygienic-binder", b.owner_fn or b.key, "fn parameter `%s`" % p.text, ok, "generated fn parameter")
+                            ok = p.text.startswith("__")
+                            why = "generated fn parameter"
+                            if not ok:
+                                users = user_tokens_in_scope(T, toks[i + 2].inner, j, "param")
+                                ok = not users
+                                why = "generated fn parameter; user tokens in the fn: %s" % users[:4]
+                            ctx.ob("C20.H.hygienic-binder", b.owner_fn or b.key, "fn parameter `%s`" % p.text, ok, why)
     # ---------------------------------------------------------------- coercion of user callables
     n_call = 0
     for b in gens:
